@@ -228,6 +228,8 @@ class World:
         return None
 
     def to_str(self, ex, v, line, spec=None):
+        if isinstance(v, V) and isinstance(v.ty, Opt):
+            v = ex.unwrap(v, line)
         if isinstance(v, str):
             return v
         if isinstance(v, int) and spec is None:
@@ -327,6 +329,26 @@ class World:
         back = z3.substitute(z3.And(cond, yt == yy), (x, w(yy)))
         ex.st.qh.append(QHyp([yy], z3.Implies(r[yy], back), 'image<'))
         return ex.newbox(r, rty)
+
+    def make_dict(self, ex, args, kwargs, e):
+        """dict(<set of (k, v) pairs that is functional in k>)"""
+        src = args[0]
+        if isinstance(src, Iter):
+            src = self.materialize(ex, src)
+        if isinstance(src, C) and isinstance(src.ty, SetOf) and isinstance(src.ty.elem, Rec) and list(src.ty.elem.fields) == ['_0', '_1']:
+            pty = src.ty.elem
+            kty, vty = pty.fields['_0'], pty.fields['_1']
+            mty = MapOf(kty, vty)
+            S = ex.read(src)
+            m = ex.fresh('dict', mty)
+            kk = z3.Const(ex.path.fresh_name('qk'), kty.sort())
+            vv = z3.Const(ex.path.fresh_name('qv'), vty.sort())
+            ex.st.qh.append(QHyp([kk, vv], z3.Implies(S[pty.mk(kk, vv)], m[kk] == mty.opt.some(vv)), 'dict.of>'))
+            ex.st.qh.append(QHyp([kk], z3.Implies(z3.Not(mty.opt.is_none(m[kk])), S[pty.mk(kk, mty.opt.val(m[kk]))]), 'dict.of<'))
+            return ex.newbox(m, mty)
+        if isinstance(src, C) and isinstance(src.ty, MapOf):
+            return ex.newbox(ex.read(src), src.ty)
+        raise Unsupported('dict(%r)' % (src,))
 
     def dict_comp(self, ex, it, fmap, line):
         """{k(x): v(x) for x in S}: a map whose domain is the image of S under k; with several x per key
@@ -438,7 +460,7 @@ class World:
                 vals.append(kc.defaults[nm])
             else:
                 raise Unsupported('missing argument %s in call of %s' % (nm, path))
-        if getattr(kc, 'inline', False):
+        if getattr(kc, 'inline', False) or path in (getattr(ex.k, 'inline_callees', None) or ()):
             return ex.inline(kc, path, vals, e.lineno)
         return ex.apply_contract(kc, kc.qual, vals, e.lineno)
 
@@ -757,6 +779,37 @@ class World:
             return V(t[k], ty.opt)
         if name == 'keys':
             return self.map_keys(ex, recv)
+        if name == 'items':
+            # the set of (key, value) pairs of the map
+            from .types import Tup
+            pty = Tup(ty.k, ty.v)
+            S = ex.fresh('items', SetOf(pty))
+            kk = z3.Const(ex.path.fresh_name('qk'), ty.k.sort())
+            vv = z3.Const(ex.path.fresh_name('qv'), ty.v.sort())
+            ex.st.qh.append(QHyp([kk, vv], S[pty.mk(kk, vv)] == (t[kk] == ty.opt.some(vv)), 'items'))
+            pp = z3.Const(ex.path.fresh_name('qp'), pty.sort())
+            ex.st.qh.append(QHyp([pp], S[pp] == (t[pty.get(pp, '_0')] == ty.opt.some(pty.get(pp, '_1'))), 'items.pair'))
+            return ex.newbox(S, SetOf(pty))
+        if name == 'update':
+            o = args[0]
+            if isinstance(o, C) and isinstance(o.ty, MapOf) and o.ty.name == ty.name:
+                ot = ex.read(o)
+                r = ex.fresh('updated', ty)
+                kk = z3.Const(ex.path.fresh_name('qk'), ty.k.sort())
+                ex.st.qh.append(QHyp([kk], r[kk] == z3.If(ty.opt.is_none(ot[kk]), t[kk], ot[kk]), 'dict.update'))
+                ex.write(recv, r, line)
+                return None
+            if isinstance(o, dict) and not o:
+                return None
+            raise Unsupported('dict.update with %r' % (o,))
+        if name == 'values':
+            r = ex.fresh('values', SetOf(ty.v))
+            vv = z3.Const(ex.path.fresh_name('qv'), ty.v.sort())
+            kk = z3.Const(ex.path.fresh_name('qk'), ty.k.sort())
+            w = z3.Function(ex.path.fresh_name('keyof'), ty.v.sort(), ty.k.sort())
+            ex.st.qh.append(QHyp([kk], z3.Implies(z3.Not(ty.opt.is_none(t[kk])), r[ty.opt.val(t[kk])]), 'values>'))
+            ex.st.qh.append(QHyp([vv], z3.Implies(r[vv], t[w(vv)] == ty.opt.some(vv)), 'values<'))
+            return ex.newbox(r, SetOf(ty.v, listlike=True))
         if name == 'clear':
             ex.write(recv, ty.empty(), line)
             return None
@@ -766,6 +819,10 @@ class World:
 
     def str_method(self, ex, recv, name, args, kwargs, line):
         t, ty = recv.t, recv.ty
+        if ty == STR and ex.opaque_strings and name in ('find', 'startswith', 'endswith'):
+            a = [ex.to_z3(args[0], STR)] + [ex._num(x) for x in args[1:2]]
+            f = z3.Function('str_%s%d' % (name, len(a)), *([STR.sort()] + [x.sort() for x in a] + [z3.IntSort() if name == 'find' else z3.BoolSort()]))
+            return V(f(t, *a), INT if name == 'find' else BOOL)
         if name == 'startswith':
             return V(z3.PrefixOf(ex.to_z3(args[0], ty), t), BOOL)
         if name == 'endswith':
@@ -807,8 +864,14 @@ def _is_identity(vt, x):
 _i2s = {}
 
 
+def istr(t):
+    """str(n) as an uninterpreted function of n; what proofs need of it (injective, decimal digits and '-' only) is
+    stated where it is used.  z3's own int.to.str made its sequence solver return unsound `sat` answers."""
+    return z3.Function('str_of_int', z3.IntSort(), STR.sort())(t)
+
+
 def int_to_str(t):
-    return z3.IntToStr(t)
+    return istr(t)
 
 
 # ---------------------------------------------------------------------- builtins
